@@ -82,8 +82,9 @@ theorem C19_pattern_rendering (p : Path) (src file : String) (line i : Nat) :
 /-- `impl Display for NCalls` as written in src/counter.rs (regenerated on every run) is the model's rendering of
     call counts in verification messages -/
 theorem C19_source_ncalls (n : Nat) : Generated.nCallsSrc n = renderNCalls n := by
-  unfold Generated.nCallsSrc renderNCalls
-  split <;> simp
+  first
+    | rfl
+    | (unfold Generated.nCallsSrc renderNCalls; split <;> simp)
 
 end Unimock.Render
 
